@@ -528,6 +528,18 @@ def m_len(I, a, e, ci):
     raise Unanalysable(f"len of {v!r}")
 
 
+@model("std::vec::Vec::<T, A>::is_empty", "std::slice::<impl [T]>::is_empty")
+def m_is_empty(I, a, e, ci):
+    v = I.deref(a[0])
+    if isinstance(v, IterV):
+        v = v.vec
+    if isinstance(v, Vec):
+        ln = v.length()
+        c = I.decide(Cond("eq", sp.expand(ln), sp.Integer(0)))
+        return BoolV(c)
+    raise Unanalysable(f"is_empty of {v!r}")
+
+
 def outer_of_loop(I, ref):
     """innermost active loop context for which the place lives outside the loop body"""
     root = getattr(ref, "root_id", None)
